@@ -38,7 +38,8 @@ REQUIRED_THEOREMS = ["Gv.Props.C16." + n for n in [
     # the aligner behind phasing (ALIGN_ALGO_ATG, alignAgainstRefsNT): verbatim occurrence of the reference
     "atg_verbatim_aligned_at_occurrence_partial", "phase_nt_verbatim_trimmed_at_orf_start_partial",
     "phase_nt_verbatim_trimmed_matchmismatch_partial", "phase_nt_verbatim_trimmed_default_acgt_partial",
-    "once_of_occurrences", "phase_nt_panics_without_positive_alignment", "phase_nt_panics_on_slice_bounds"]]
+    "once_of_occurrences", "phase_nt_removed_is_untrimmed_input", "phase_nt_without_positive_alignment_is_removed",
+    "phase_nt_hit_shorter_than_frame_shift_reports_error", "atg_aligner_never_panics"]]
 PARTIAL = [
     "'a sequence that contains the reference ORF verbatim once is trimmed exactly at that ORF's start' is PROVED (from the C09 "
     "lemmas about the repaired fillMatrix_SW) only as ..._partial: for the nucleotide mode (alignAgainstRefsNT, model "
@@ -52,10 +53,15 @@ PARTIAL = [
     "codes under DNAfull - there the clause is checked only by the oracle predicate on the implementation's results",
     "the models of the ATG-mode aligner and of alignAgainstRefsNT are hand-written and tied to the code by the atgalign / "
     "phasent1 correspondence runs only; scores are dyadic rationals computed exactly (as for C09)",
-    "two run-time panics of alignAgainstRefsNT (worker goroutine, kills the process) are part of the model and kernel-checked "
-    "(phase_nt_panics_without_positive_alignment: no alignment anchored at the reference start scores > 0, e.g. ATG vs CC; "
-    "phase_nt_panics_on_slice_bounds: ATG vs T with --gap-open -1); the generators avoid such inputs - they are reported, "
-    "not recorded in known_findings.jsonl by this change",
+    "alignAgainstRefsNT / alignAgainstRefsAA: the model mirrors the code WITH proposed_fixes/c16-phaser-no-positive-alignment.diff "
+    "(no alignment with a positive score => removed result carrying the untrimmed input: phase_nt_removed_is_untrimmed_input, "
+    "witness ATG vs CC) and c16-phaser-frame-shift-bounds.diff (codon start clamped to the end of the trimmed sequence; the "
+    "empty codon sequence is then refused by Translate, i.e. an error is reported: witness ATG vs T with --gap-open -1); on the "
+    "code before these repairs both inputs are run-time panics of the worker goroutine and the check fails with them. The "
+    "translate-mode function alignAgainstRefsAA is not modelled (its no-hit branch is only exercised by the phase op); that "
+    "phaseNT never panics is proved for the aligner (atg_aligner_never_panics) but not for the two remaining slice/index "
+    "expressions of alignAgainstRefsNT (all-gap aligned row, beststart > bestend), which need a positive-score alignment "
+    "without any residue pair",
     "longestORF: the scan search now in /repo (fix: a715114, every ATG considered) satisfies longestORF_scan_is_longest "
     "('no input contains a longer ORF'); for the regexp search first shipped its negation longestORF_regex_not_longest "
     "is kept as a theorem (the model follows Gen.Facts.longestOrfRegex)",
@@ -215,9 +221,13 @@ SCORES = [("_", "_"), ("_", "_"), ("2", "-2"), ("10", "-8"), ("4", "-1"), ("2", 
 
 
 def align_cases(rng, quick):
-    """atgalign: the ATG-mode aligner against its model; phasent1: alignAgainstRefsNT on one sequence.
-    Inputs always hold a (possibly mutated) copy of the reference, so that some alignment anchored at the
-    reference's start scores above 0 (without one the worker goroutine panics: see the report of C16)."""
+    """atgalign: the ATG-mode aligner against its model; phasent1: alignAgainstRefsNT on one sequence, including
+    sequences that no reference aligns to with a positive score (removed result) and hits shorter than their
+    frame shift (small gap penalties on tiny sequences) - both were panics of the worker goroutine before
+    proposed_fixes/c16-phaser-no-positive-alignment.diff / c16-phaser-frame-shift-bounds.diff."""
+    # the two minimal witnesses of those repairs
+    yield Case("phasent1", [2, "d", "d", "_", "_", 0, 0, 0, "ref:ATG", "CC"], True, "phasent1-no-positive-alignment")
+    yield Case("phasent1", [2, "-2", "d", "_", "_", 0, 0, 0, "ref:ATG", "T"], True, "phasent1-hit-shorter-than-frame-shift")
     for _ in range(400 if quick else 4000):
         orf = make_orf(rng, rng.randint(1, 12))
         kind = rng.randint(0, 3)
@@ -262,6 +272,15 @@ def align_cases(rng, quick):
         once = seq.count(orf) == 1
         yield Case("phasent1", [2, go, ge, mt, mm, reverse, rng.choice([0, 1]), rng.choice([0, 1, 2]), refs, seq],
                    once and bool(left), "phasent1")
+    for _ in range(200 if quick else 2000):
+        # unrelated / tiny sequences, small gap penalties: no positive alignment, hits of one or two residues
+        # behind leading gaps, empty codon sequences
+        orf = make_orf(rng, rng.randint(1, 4)) if rng.random() < 0.6 else rnd(rng, rng.randint(3, 7))
+        seq = rnd(rng, rng.randint(1, 6)) if rng.random() < 0.7 else rng.choice("ACGT") * rng.randint(1, 10)
+        go, ge = rng.choice([("d", "d"), ("-2", "-1"), ("-2", "-2"), ("-4", "-1"), ("-1", "-1")])
+        mt, mm = rng.choice([("_", "_"), ("_", "_"), ("2", "-2"), ("4", "-1")])
+        yield Case("phasent1", [2, go, ge, mt, mm, rng.choice([0, 0, 1]), rng.choice([0, 1]), rng.choice([0, 1, 2]),
+                                "ref:" + orf, seq], False, "phasent1-tiny")
 
 
 def accepts(c):
